@@ -313,6 +313,27 @@ def oracle_compile(text):
     return out
 
 
+@st.composite
+def broken_query(draw):
+    """A grammar-generated query with one grouping symbol removed or one added."""
+    q = draw(query(3))
+    idx = [i for i, ch in enumerate(q) if ch in "()[]{}"]
+    mode = draw(st.integers(0, 2))
+    if idx and mode == 0:
+        i = idx[draw(st.integers(0, len(idx) - 1))]
+        return q[:i] + q[i + 1:]
+    pos = draw(st.integers(0, len(q)))
+    while 0 < pos < len(q) and q[pos - 1] not in " ()[]{}:" and q[pos] not in " ()[]{}:":
+        pos += 1            # never split a term
+    return q[:pos] + draw(st.sampled_from(list("()[]{}"))) + q[pos:]
+
+
+def oracle_broken(text):
+    out = oracle_compile(text)
+    out.classes += ("from-grammar",)
+    return out
+
+
 def warmup(tier):
     hedenv.schema(VERSION)
     ctx()
@@ -321,4 +342,5 @@ def warmup(tier):
 def parts(tier):
     q = tier == "quick"
     return [Part("laws", oracle_laws, strategy=laws_case(), n=3000 if q else 128000),
-            Part("compile", oracle_compile, strategy=compile_text, n=5000 if q else 200000)]
+            Part("compile", oracle_compile, strategy=compile_text, n=5000 if q else 200000),
+            Part("unbalanced-from-grammar", oracle_broken, strategy=broken_query(), n=2000 if q else 64000)]
